@@ -157,7 +157,7 @@ func RunCase(rt *rapid.T, env *Env, prop *SimProp) {
 		}
 	}
 	res := FinishCase(prop, w, env.Known)
-	script := append([]Op(nil), w.Script...)
+	script := append([]Op(nil), w.SymScript...)
 	w.Shutdown()
 	if left := w.Leftover(); left != "" {
 		rf := &ReplayFile{Property: prop.ID, Profile: p.Name, Config: cfg, Script: script, Message: "goroutines left behind after shutdown: " + left, Class: "leftover"}
